@@ -470,8 +470,9 @@ def stmt_in_macro(stmt, names):
     return any(any(n in m for n in names) for m in ms)
 
 
-def root_local(body, operand, depth=12):
-    """Follow plain moves/copies of bare locals back to the user-named (or multiply-defined) local."""
+def root_local(body, operand, depth=12, through_refs=False):
+    """Follow plain moves/copies of bare locals back to the user-named (or multiply-defined) local
+    (with through_refs also `&x` / `&mut x` of a bare local: the variable a reference was taken of)."""
     l = op_local(operand)
     p = op_place(operand)
     if l is None or (p and p["proj"]):
@@ -481,6 +482,9 @@ def root_local(body, operand, depth=12):
         if body.names.get(l) and not body.locals[l].get("inlined_param"):
             return l
         ds = [d for d in body.defs().get(l, []) if d["kind"] != "mutcall"]
+        if through_refs and len(ds) == 1 and ds[0]["kind"] == "assign" and ds[0]["stmt"]["rv"]["k"] == "ref" and ds[0]["stmt"]["rv"]["place"]["proj"] in ([], ["deref"]):
+            l = ds[0]["stmt"]["rv"]["place"]["local"]  # `&x`, or the re-borrow `&*r`
+            continue
         if not ds or any(d["kind"] != "assign" or d["stmt"]["rv"]["k"] != "use" for d in ds):
             return l
         srcs = [op_place(d["stmt"]["rv"]["op"]) for d in ds]
@@ -489,7 +493,7 @@ def root_local(body, operand, depth=12):
         if len(ds) > 1:
             # the shared parameter of a helper entered from several call sites: every site passes something; follow
             # only if it is the same thing everywhere (after following each)
-            roots = {root_local(body, {"copy": {"local": p2["local"], "proj": []}}, depth) for p2 in srcs}
+            roots = {root_local(body, {"copy": {"local": p2["local"], "proj": []}}, depth, through_refs) for p2 in srcs}
             if len(roots) != 1 or not body.locals[l].get("inlined_param"):
                 return l
             return roots.pop()
